@@ -43,7 +43,7 @@ def reference_document() -> dict:
                            "responses": {"200": {"description": "ok", "content": {BLOB: {"schema": {"type": "string", "format": "binary"}}}}}}},
     }
     # an enum whose class name in snake case is a builtin: its module is format_, its helper names derive from the class name
-    d = gen.mkdoc({"Thing": thing, "Format": {"type": "string", "enum": ["json", "xml"]}}, paths, title="My API")
+    d = gen.mkdoc({"Thing": thing, "Format": {"type": "string", "enum": ["json", "xml", 'say "hi"', "C:\\temp", "two\nlines"]}}, paths, title="My API")
     d["info"]["version"] = "1.2.3"
     return d
 
